@@ -18,6 +18,7 @@ import (
 	"bytes"
 	"context"
 	"fmt"
+	"math"
 	"math/big"
 	"os"
 	"os/exec"
@@ -228,13 +229,15 @@ func decPairs(s, sep string) [][2]int {
 	return out
 }
 
-// ratOf turns a Go %v float (or a decimal weight) into an exact rational; nil if it is not finite.
+// ratOf reads a Go %v float (or a decimal weight as the flag package reads it) as the exact value of the
+// float64 it denotes: %v prints the shortest decimal that round-trips, which need not be the exact value.
+// nil if it is not a finite number.
 func ratOf(s string) *big.Rat {
-	r, ok := new(big.Rat).SetString(s)
-	if !ok {
+	f, err := strconv.ParseFloat(s, 64)
+	if err != nil || math.IsInf(f, 0) || math.IsNaN(f) {
 		return nil
 	}
-	return r
+	return new(big.Rat).SetFloat64(f)
 }
 
 func encRat(r *big.Rat) string {
@@ -248,7 +251,11 @@ func decRat(s string) *big.Rat {
 	if s == "inf" {
 		return nil
 	}
-	return ratOf(s)
+	r, ok := new(big.Rat).SetString(s)
+	if !ok {
+		return nil
+	}
+	return r
 }
 
 type spec struct {
@@ -707,6 +714,29 @@ func oracleSearch(c, res string) string {
 	if reported == nil {
 		return "reported cost is not finite"
 	}
+	// the other invocations of this check are independent of each other: start them now
+	salt := len(s.expr) + s.p + len(script)
+	q := otherP(s.p, salt)
+	o2c := make(chan *obs, 1)
+	go func() { o2c <- runSearch(s.expr, q, s.add, s.dbl, false) }()
+	type fmtRes struct {
+		r     procResult
+		chain []*big.Int
+		msg   string
+	}
+	fmtc := map[string]chan fmtRes{"fmt": make(chan fmtRes, 1), "fmt -b": make(chan fmtRes, 1)}
+	for _, args := range [][]string{{"fmt"}, {"fmt", "-b"}} {
+		go func(args []string) {
+			var fr fmtRes
+			fr.r = runBin(script, args...)
+			if fr.r.exit == 0 && !crashed(fr.r.stderr) {
+				fr.chain, _, _, fr.msg = evalScript(fr.r.stdout)
+			}
+			fmtc[strings.Join(args, " ")] <- fr
+		}(args)
+	}
+	genc := make(chan procResult, 1)
+	go func() { genc <- runBin(script, "gen") }()
 	// the printed script evaluates (eval command) to a chain ending in n
 	chain, doubles, adds, msg := evalScript(script)
 	if msg != "" {
@@ -745,10 +775,10 @@ func oracleSearch(c, res string) string {
 			return fmt.Sprintf("the logged best chain and the printed script differ at element %d", i+1)
 		}
 	}
-	// byte-identical across runs and across concurrency settings (this run: no -v, another -p)
-	salt := len(s.expr) + s.p + len(script)
-	for _, q := range []int{otherP(s.p, salt), s.p} {
-		o2 := runSearch(s.expr, q, s.add, s.dbl, false)
+	// byte-identical across runs and across concurrency settings: the run that generated the case and the
+	// run of Run (same -p, both -v) have been compared already; this one has no -v and another -p
+	{
+		o2 := <-o2c
 		if o2.proc.exit != 0 || crashed(o2.proc.stderr) {
 			return fmt.Sprintf("search -p %d exits with status %d", q, o2.proc.exit)
 		}
@@ -758,29 +788,25 @@ func oracleSearch(c, res string) string {
 		if o2.cost != o.cost {
 			return fmt.Sprintf("reported cost differs between -p %d and -p %d", s.p, q)
 		}
-		if n.BitLen() > 64 {
-			break // one extra run for the expensive targets
-		}
 	}
 	// fmt and fmt -b accept it, and what they print is the same chain
-	for _, args := range [][]string{{"fmt"}, {"fmt", "-b"}} {
-		r := runBin(script, args...)
-		if r.exit != 0 || crashed(r.stderr) {
-			return fmt.Sprintf("%s rejects the script printed by search (status %d): %s", strings.Join(args, " "), r.exit, firstLine(r.stderr))
+	for _, name := range []string{"fmt", "fmt -b"} {
+		fr := <-fmtc[name]
+		if fr.r.exit != 0 || crashed(fr.r.stderr) {
+			return fmt.Sprintf("%s rejects the script printed by search (status %d): %s", name, fr.r.exit, firstLine(fr.r.stderr))
 		}
-		ch2, _, _, msg := evalScript(r.stdout)
-		if msg != "" {
-			return strings.Join(args, " ") + " output: " + msg
+		if fr.msg != "" {
+			return name + " output: " + fr.msg
 		}
-		if !sameChain(ch2, chain) {
-			return strings.Join(args, " ") + " output evaluates to a different chain"
+		if !sameChain(fr.chain, chain) {
+			return name + " output evaluates to a different chain"
 		}
-		if args[len(args)-1] == "fmt" && !bytes.Equal(r.stdout, script) {
+		if name == "fmt" && !bytes.Equal(fr.r.stdout, script) {
 			return "fmt changes the script printed by search"
 		}
 	}
 	// gen accepts it iff it has at least one operation
-	g := runBin(script, "gen")
+	g := <-genc
 	if crashed(g.stderr) {
 		return "gen crashed on the script printed by search: " + firstLine(g.stderr)
 	}
@@ -887,6 +913,58 @@ var weightSet = []string{"1", "0.5", "2", "1.25", "3"}
 // further dyadic weights for the thorough tier ("every positive add/double cost setting")
 var weightSetWide = []string{"1", "0.5", "2", "1.25", "3", "0.25", "8", "1.5", "0.125", "100", "7.75", "0.0625"}
 
+// Extended weights ("every positive add/double cost setting"), all exactly representable as float64 and
+// written as exact decimals: large integers (costs beyond 10^6 and 10^9, printed by %v in exponent form),
+// dyadic fractions with long decimal expansions, tiny and huge magnitudes.
+var weightSetExt = []string{
+	"12345", "6789", "1000003", "2147483649", // 2^31+1
+	"1.00000095367431640625",                 // 1 + 2^-20
+	"3.000030517578125",                      // 3 + 2^-15
+	"0.0009765625",                           // 2^-10
+	"0.000000000931322574615478515625",       // 2^-30
+	"1099511627776",                          // 2^40
+	"1", "0.5", "3",
+}
+
+// exactPair: with operation counts below 2^11, double*doubles + add*adds is computed without rounding in
+// float64 (every partial result fits 53 bits), so that the exact-rational reading of the cost is the
+// float64 value the command computes.  Pairs outside are not generated (rounding is not modelled).
+func exactPair(add, dbl string) bool {
+	lo, hi := 1<<30, -(1 << 30)
+	for _, w := range []string{add, dbl} {
+		r := ratOf(w)
+		if r == nil || r.Sign() <= 0 {
+			return false
+		}
+		den := r.Denom()
+		if new(big.Int).And(den, new(big.Int).Sub(den, big.NewInt(1))).Sign() != 0 {
+			return false // not dyadic
+		}
+		num := r.Num()
+		lsb := int(num.TrailingZeroBits()) - (den.BitLen() - 1)
+		msb := num.BitLen() - (den.BitLen() - 1) + 11 + 1 // times a count < 2^11, plus the carry of the sum
+		if lsb < lo {
+			lo = lsb
+		}
+		if msb > hi {
+			hi = msb
+		}
+	}
+	return hi-lo <= 52
+}
+
+func extPairs() [][2]string {
+	var out [][2]string
+	for _, a := range weightSetExt {
+		for _, d := range weightSetExt {
+			if exactPair(a, d) {
+				out = append(out, [2]string{a, d})
+			}
+		}
+	}
+	return out
+}
+
 func pow2(k int) *big.Int { return new(big.Int).Lsh(big.NewInt(1), uint(k)) }
 
 // structured expressions: (text, bits)
@@ -973,7 +1051,7 @@ func gen(tier string, r *lib.Rand, emit func(string)) {
 	// (a) small targets exhaustively, weights and -p rotating so that every pair of the grid and every -p
 	// occurs many times
 	maxn := 64
-	per := 3
+	per := 2
 	if !quick {
 		maxn = 300
 		per = 5
@@ -1016,6 +1094,27 @@ func gen(tier string, r *lib.Rand, emit func(string)) {
 			}
 		}
 	}
+	// the extended weights: costs with many significant digits, in plain and exponent notation
+	ext := extPairs()
+	if !quick {
+		for _, e := range []string{"23", "47", "127", "255", "367", "2047", "65535", "43690", "1000003", "2^89-1", "2^127-1", "2^255-19"} {
+			for _, ad := range ext {
+				specs = append(specs, spec{e, pSet[k%len(pSet)], ad[0], ad[1]})
+				k++
+			}
+		}
+	} else {
+		for i, e := range []string{"23", "47", "127", "255", "367", "2047", "65535", "43690", "1000003", "2^89-1"} {
+			for j := 0; j < 5; j++ {
+				ad := ext[(i*5+j)*7%len(ext)]
+				if j == 4 {
+					ad = ext[r.Intn(len(ext))]
+				}
+				specs = append(specs, spec{e, pSet[k%len(pSet)], ad[0], ad[1]})
+				k++
+			}
+		}
+	}
 	// (b) structured shapes
 	for _, e := range shapes(tier, r) {
 		a, d := ws[r.Intn(len(ws))], ws[r.Intn(len(ws))]
@@ -1049,9 +1148,11 @@ func gen(tier string, r *lib.Rand, emit func(string)) {
 		if o.class == "ok" && o.logOK {
 			emit(fmt.Sprintf("select %s %s", s.head(), encTable(o.table)))
 			emit(fmt.Sprintf("report %s %s", s.head(), encOps(o.ops)))
-			emit("evalcmd " + lib.Bytes(o.proc.stdout))
-			emit("fmtcmd " + lib.Bytes(o.proc.stdout))
-			emit("fmtbcmd " + lib.Bytes(o.proc.stdout))
+			if !quick || i%3 == 0 {
+				emit("evalcmd " + lib.Bytes(o.proc.stdout))
+				emit("fmtcmd " + lib.Bytes(o.proc.stdout))
+				emit("fmtbcmd " + lib.Bytes(o.proc.stdout))
+			}
 		}
 		// the ensemble itself in the model: only where Go's sort.Slice is stable (see dispatch/C14.v)
 		if n, bad := evalExpr(s.expr); o.class != "ok" || (bad == 0 && n.BitLen() <= 20 && fullBudget > 0) {
@@ -1085,6 +1186,11 @@ func neighbours(c string, r *lib.Rand, emit func(string)) {
 	var specs []spec
 	for i := 0; i < 4; i++ {
 		specs = append(specs, spec{s.expr, s.p, weightSetWide[r.Intn(len(weightSetWide))], weightSetWide[r.Intn(len(weightSetWide))]})
+	}
+	ext := extPairs()
+	for i := 0; i < 3; i++ {
+		ad := ext[r.Intn(len(ext))]
+		specs = append(specs, spec{s.expr, s.p, ad[0], ad[1]})
 	}
 	specs = append(specs, spec{s.expr, otherP(s.p, r.Intn(5)), s.add, s.dbl}, spec{s.expr, s.p, s.dbl, s.add})
 	if n, bad := evalExpr(s.expr); bad == 0 && n.Sign() > 0 && n.BitLen() <= 64 {
